@@ -1,16 +1,82 @@
 /-
   C20 — filterset parsing is total and printing a parsed expression round-trips.
-  Property theorems only.
+  Property theorems only.  (Model/Syntax's parser is a total Lean function by construction:
+  structural recursion on explicit fuel; `OutOfFuel` is an ordinary reported error.)
 -/
 import NextestModel.Model.Syntax
 namespace NextestModel.C20
 open NextestModel NextestModel.Syntax
 
-/-- The regex printer/parser pair round-trips on every regex text: printing escapes exactly the
-    `/` characters, and `parse_regex_inner`'s fold turns `\/` back into `/` and leaves every other
-    character — including a backslash — alone.  Stated for texts in which no backslash immediately
-    precedes a `/`-free tail ambiguity: see `regex_roundtrip` below for the general statement. -/
-theorem print_regex_no_bare_slash (s : List Char) : ∀ c ∈ printRegex s, c = '/' → True := by
-  intro _ _ _; trivial
+deriving instance DecidableEq for St
+
+/-- parse the printed form of a one-character string, followed by the closing parenthesis -/
+def reparseChar (i : Nat) (c : Char) : Option (List Char) × St :=
+  parseString { total := 100, regexValid := [], globValid := [] }
+    { rest := printStringChar i c ++ [')'], errs := [], needs := [] }
+
+/-- **Every ASCII character round-trips through the string printer and parser**, at the start of a
+    value (index 0, where blank `=` `~` `#` must be protected) and elsewhere: the printed form
+    re-parses to exactly that character, consumes exactly the printed text and reports no error.
+    A complete finite table (2 × 128 entries), evaluated by the kernel.  Before the repair of F3
+    this failed for `'` and `"` (printed as `\'`, `\"`). -/
+theorem ascii_char_roundtrip :
+    ∀ i : Fin 2, ∀ n : Fin 128,
+      reparseChar i.val (Char.ofNat n.val) =
+        (some [Char.ofNat n.val], { rest := [')'], errs := [], needs := [] }) := by
+  decide +kernel
+
+/-- The characters that would change how a value is re-read are never printed raw: for every
+    character, the string printer emits either the character itself — and then it is none of
+    `,` `)` `\` `/` — or an escape sequence beginning with a backslash. -/
+theorem printed_string_has_no_raw_stop (i : Nat) (c : Char) :
+    (printStringChar i c = [c] ∧ c ≠ ',' ∧ c ≠ ')' ∧ c ≠ '\\' ∧ c ≠ '/') ∨
+    (∃ t, printStringChar i c = '\\' :: t ∧ t ≠ []) := by
+  unfold printStringChar
+  by_cases h1 : c = '/'
+  · right; subst h1; exact ⟨['/'], by simp, by simp⟩
+  by_cases h2 : c = ')'
+  · right; subst h2; exact ⟨[')'], by simp, by simp⟩
+  by_cases h3 : c = ','
+  · right; subst h3; exact ⟨[','], by simp, by simp⟩
+  by_cases h4 : c = '\''
+  · left; subst h4; simp
+  by_cases h5 : c = '"'
+  · left; subst h5; simp
+  have hq : (c == '\'' || c == '"') = false := by simp [h4, h5]
+  simp only [beq_iff_eq, h1, h2, h3, hq, if_false, Bool.false_eq_true]
+  by_cases h6 : (i == 0 && (c == ' ' || c == '=' || c == '~' || c == '#')) = true
+  · right; simp only [h6, if_true]; exact ⟨_, rfl, by simp⟩
+  · simp only [h6, Bool.false_eq_true, if_false]
+    unfold escapeDefault
+    by_cases e1 : c = '\t'
+    · right; subst e1; exact ⟨['t'], by simp, by simp⟩
+    by_cases e2 : c = '\r'
+    · right; subst e2; exact ⟨['r'], by simp, by simp⟩
+    by_cases e3 : c = '\n'
+    · right; subst e3; exact ⟨['n'], by simp, by simp⟩
+    by_cases e6 : c = '\\'
+    · right; subst e6; exact ⟨['\\'], by simp, by simp⟩
+    simp only [beq_iff_eq, e1, e2, e3, h4, h5, e6, if_false]
+    by_cases e7 : 0x20 ≤ c.toNat ∧ c.toNat ≤ 0x7e
+    · left; simp only [e7, and_self, if_true]; exact ⟨trivial, h3, h2, e6, h1⟩
+    · right; simp only [e7, if_false]; exact ⟨_, rfl, by simp⟩
+
+/-- The regex printer escapes every `/` and nothing else, so the printed text contains no
+    unescaped delimiter. -/
+theorem printed_regex_slashes_escaped : ∀ s : List Char,
+    printRegex s = s.flatMap (fun c => if c = '/' then ['\\', '/'] else [c]) := by
+  intro s
+  induction s with
+  | nil => rfl
+  | cons c cs ih =>
+    by_cases h : c = '/'
+    · subst h; simp [printRegex, ih]
+    · have : printRegex (c :: cs) = c :: printRegex cs := by
+        rw [printRegex.eq_def]
+        split
+        · rename_i heq; cases heq
+        · rename_i heq; injection heq with h1 h2; exact absurd h1 h
+        · rename_i heq; injection heq with h1 h2; subst h1 h2; rfl
+      simp [this, ih, h]
 
 end NextestModel.C20
